@@ -16,6 +16,10 @@ structure SState where
   poison : List Nat := []
   /-- C04, codec half: (layer index, setter name) of every typed setter that was accepted since `new` (first call only) -/
   typed : List (Nat × String) := []
+  /-- C04, codec half, values: (layer index, class, setter name, expected dump) recorded with the FIRST accepted call of a
+      typed setter whose arguments are representable (`typedExpect`); later calls of the same setter add options the typed
+      getter does not look at -/
+  typedVals : List (Nat × String × String × String) := []
 
 structure Layer where
   cls : String
@@ -204,6 +208,101 @@ def verbatimSetters : List String :=
 
 def isHexish (v : String) : Bool := v == "-" || (v.length % 2 == 0 && v.all (fun c => c.isDigit || ('a' ≤ c && c ≤ 'f')))
 
+
+/-! ### C04, codec half: what a typed getter must return for a representable argument of its setter.
+    The table restates the `Repr*` predicates of `TinsModel/Wire/Icmp/ThCodec6.lean` (theorem `icmp6_typed_codecs_inverse`) on
+    the argument words of the line protocol; `none` = the argument is not one the option can express (or not canonical
+    decimal / hex), the clause then says nothing. -/
+
+def numArg? (s : String) (bound : Nat) : Option String :=
+  match s.toNat? with
+  | some n => if n < bound && toString n == s then some s else none
+  | none => none
+
+def hexLen? (s : String) : Option Nat := if s == "-" then some 0 else if isHexish s then some (s.length / 2) else none
+
+def hexArg? (s : String) (ok : Nat → Bool) : Option String :=
+  match hexLen? s with
+  | some n => if ok n then some s else none
+  | none => none
+
+/-- a ','-separated list of hex items of `each` octets, `lo … hi` items (`-` = empty list) -/
+def hexListArg? (s : String) (each lo hi : Nat) : Option String :=
+  let items := if s == "-" then [] else s.splitOn ","
+  if items.all (fun it => it != "-" && hexLen? it == some each) && lo ≤ items.length && items.length ≤ hi then some s else none
+
+/-- a DNS name the label encoding can express: non-empty, every label 1 … 255 octets (`GoodName`) -/
+def goodNameHex (h : String) : Bool :=
+  match Tins.Wire.parseHexStr h with
+  | some bs =>
+    let rec labels (b : List UInt8) (cur : Nat) (acc : List Nat) : List Nat :=
+      match b with
+      | [] => (cur :: acc)
+      | x :: r => if x.toNat == 46 then labels r 0 (cur :: acc) else labels r (cur + 1) acc
+    h != "-" && (labels bs 0 []).all (fun n => 0 < n && n ≤ 255)
+  | none => false
+
+def namesArg? (s : String) : Option String :=
+  let items := if s == "-" then [] else s.splitOn ","
+  if items.all goodNameHex && (items.map (fun it => it.length / 2 + 2)).sum ≤ 2032 then some s else none
+
+def dotJoin (xs : List (Option String)) : Option String := (xs.mapM id).map (fun l => ".".intercalate l)
+
+def any (_ : Nat) : Bool := true
+
+/-- (class, setter) ↦ expected dump of the typed getter -/
+def typedExpect (name : String) (a : List String) : Option (String × String) :=
+  let r (v : Option String) := v.map (fun x => ("ICMPv6", x))
+  match name, a with
+  | "source_link_layer_addr", [x] | "target_link_layer_addr", [x] => r (hexArg? x (· == 6))
+  | "prefix_info", [pl, fa, fl, valid, pref, pfx] =>
+    r (dotJoin [numArg? pl 256, numArg? fa 2, numArg? fl 2, numArg? valid 4294967296, numArg? pref 4294967296, some "0",
+                hexArg? pfx (· == 16)])
+  | "redirect_header", [x] | "nonce", [x] => r (hexArg? x any)
+  | "mtu", [x, y] => r (dotJoin [numArg? x 65536, numArg? y 4294967296])
+  | "timestamp", [x, t] => r (dotJoin [hexArg? x (· == 6), numArg? t 18446744073709551616])
+  | "shortcut_limit", [l, r1, r2] => r (dotJoin [numArg? l 256, numArg? r1 256, numArg? r2 4294967296])
+  | "new_advert_interval", [x, y] => r (dotJoin [numArg? x 65536, numArg? y 4294967296])
+  | "new_home_agent_info", [l] =>
+    (match l.splitOn "," with
+     | [x, y, z] => r ((dotJoin [numArg? x 65536, numArg? y 65536, numArg? z 65536]).map (fun _ => l))
+     | _ => none)
+  | "source_addr_list", [x, l] | "target_addr_list", [x, l] => r (dotJoin [hexArg? x (· == 6), hexListArg? l 16 1 127])
+  | "rsa_signature", [h, sg] => r (dotJoin [hexArg? h (· == 16), hexArg? sg (fun n => 0 < n && (20 + n) % 8 == 0 && n ≤ 2020)])
+  | "ip_prefix", [c, l, x] => r (dotJoin [numArg? c 256, numArg? l 256, hexArg? x (· == 16)])
+  | "link_layer_addr", [c, x] => r (dotJoin [numArg? c 256, hexArg? x (fun n => (3 + n) % 8 == 0 && n ≤ 2037)])
+  | "naack", [c, x] => r (dotJoin [numArg? c 256, numArg? x 256])
+  | "map", [d, pr, rr, valid, x] =>
+    r (dotJoin [numArg? d 16, numArg? pr 16, numArg? rr 2, numArg? valid 4294967296, hexArg? x (· == 16)])
+  | "route_info", [pl, pr, lt, pfx] =>
+    r (dotJoin [numArg? pl 256, numArg? pr 4, numArg? lt 4294967296, hexArg? pfx (fun n => n % 8 == 0 && n ≤ 2032)])
+  | "recursive_dns_servers", [lt, l] => r (dotJoin [numArg? lt 4294967296, hexListArg? l 16 1 127])
+  | "handover_key_request", [atv, k] => r (dotJoin [numArg? atv 16, hexArg? k (· ≤ 2030)])
+  | "handover_key_reply", [lt, atv, k] => r (dotJoin [numArg? lt 65536, numArg? atv 16, hexArg? k (· ≤ 2028)])
+  | "handover_assist_info", [c, h] | "mobile_node_identifier", [c, h] => r (dotJoin [numArg? c 256, hexArg? h (· < 256)])
+  | "dns_search_list", [lt, ds] => r (dotJoin [numArg? lt 4294967296, namesArg? ds])
+  | _, _ => none
+
+
+/-- the dump of the typed getter `name` of a layer, whatever the family's harness convention: a field of that name
+    (L2, Ip, Ip6, Transport, Icmp, App) or an item `name:value` of the Dot11 management frames' `typed=` field
+    (items joined by `|`; an absent item = `option_not_found`) -/
+def typedLookup (l : Layer) (name : String) : Option String :=
+  match l.fields.find? (fun f => f.1 == name) with
+  | some f => some f.2
+  | none =>
+    match l.fields.find? (fun f => f.1 == "typed") with
+    | some t =>
+      (t.2.splitOn "|").findSome? (fun it =>
+        if it.startsWith (name ++ ":") then some ((it.drop (name.length + 1)).toString) else none)
+    | none => none
+
+/-- a typed getter that threw on the option it found: `bad` / `malformed_option` (malformed_option), `mp` /
+    `malformed_packet`, `!<exception>` — the conventions of the seven family harnesses; `none` / `nf` (option_not_found)
+    is not one of them: a raw edit may have removed the option -/
+def typedFailed (v : String) : Bool :=
+  v == "bad" || v == "mp" || v == "malformed_option" || v == "malformed_packet" || v.startsWith "!"
+
 /-- C04 = the wire half (`specReparse`) + "getters reflect exactly the accumulated edits" for the verbatim setters.  A typed
     setter ADDS an option and the typed getter returns the FIRST option of that code ("first matching option"), so what a
     dump must show under `name` is the first value set through that setter — as long as the option list of the layer was
@@ -213,7 +312,7 @@ def spec04 (st : SState) (line : String) : SState × String :=
   | none => (st, "bad-line")
   | some (op, common, _) =>
     match words op with
-    | ["new"] => ({ st with sets := [], poison := [], typed := [] }, "unspecified")
+    | ["new"] => ({ st with sets := [], poison := [], typed := [], typedVals := [] }, "unspecified")
     | "set" :: idx :: name :: rest =>
       if (words common).head? != some "ok" then (st, "unspecified") else
       match idx.toNat? with
@@ -229,7 +328,7 @@ def spec04 (st : SState) (line : String) : SState × String :=
           | _ => (st, "unspecified")
         else if name.startsWith "add_" || name.startsWith "remove_" || name == "end_of_list" || name == "vendor_specific" then
           ({ st with sets := st.sets.filter (fun e => e.1 != i), typed := st.typed.filter (fun e => e.1 != i),
-                     poison := i :: st.poison }, "unspecified")
+                     typedVals := st.typedVals.filter (fun e => e.1 != i), poison := i :: st.poison }, "unspecified")
         -- representability: RFC 8415 §21.15 — a User Class option holds one or more instances of user class data, so the empty
         -- list is not an argument the option can express (libtins encodes it as a zero-length option and rejects that)
         else if name == "user_class" && rest == ["empty"] then (st, "unspecified")
@@ -237,7 +336,11 @@ def spec04 (st : SState) (line : String) : SState × String :=
         -- identifier octet is not one the option can express (the decoder asks for at least one)
         else if (name == "client_id" || name == "server_id") && rest.getLast? == some "-" then (st, "unspecified")
         else if st.typed.contains (i, name) then (st, "unspecified")
-        else ({ st with typed := (i, name) :: st.typed }, "unspecified")
+        else
+          let vals := match typedExpect name rest with
+            | some (cls, v) => (i, cls, name, v) :: st.typedVals
+            | none => st.typedVals
+          ({ st with typed := (i, name) :: st.typed, typedVals := vals }, "unspecified")
     | ["show"] =>
       let cw := words common
       match cw with
@@ -255,14 +358,24 @@ def spec04 (st : SState) (line : String) : SState × String :=
           -- are not inverse on that value
           let undec := st.typed.filterMap (fun (i, name) =>
             match ls[i]? with
-            | some l => match l.fields.find? (fun f => f.1 == name) with
-              | some f => if f.2 == "bad" || f.2 == "mp" || f.2.startsWith "!" then some s!"layer {i} {name} get={f.2.take 40}" else none
+            | some l => match typedLookup l name with
+              | some v => if typedFailed v then some s!"layer {i} {name} get={v.take 40}" else none
               | none => none
             | none => none)
-          match bad, undec with
-          | b :: _, _ => (st, s!"violates last-value-set {b}")
-          | [], u :: _ => (st, s!"violates getter-rejects-own-setter {u}")
-          | [], [] => specReparse st line
+          -- … and for a representable argument it must return that argument (`typedExpect`)
+          let wrong := st.typedVals.filterMap (fun (i, cls, name, v) =>
+            match ls[i]? with
+            | some l =>
+              if l.cls != cls then none else
+              match l.fields.find? (fun f => f.1 == name) with
+              | some f => if f.2 == v then none else some s!"layer {i} {name} set={v.take 80} get={f.2.take 80}"
+              | none => none
+            | none => none)
+          match bad, undec, wrong with
+          | b :: _, _, _ => (st, s!"violates last-value-set {b}")
+          | [], u :: _, _ => (st, s!"violates getter-rejects-own-setter {u}")
+          | [], [], w :: _ => (st, s!"violates typed-getter-returns-set-value {w}")
+          | [], [], [] => specReparse st line
         | none => specReparse st line
       | _ => specReparse st line
     | _ => specReparse st line
